@@ -241,6 +241,8 @@ class Q:
         if k < 0.55:
             i = self.r.randrange(len(self.items))
             return str(i + 1), list(self.items[i][1])
+        if k < 0.62:
+            return self.pick(["TRUE", "false", "NULL", "'x'", "1.5"]), []          # a constant that is not a position: reads nothing
         return self.col(quals)
 
 
